@@ -200,6 +200,24 @@ def generate(ctx):
             yield {'t': 'frame_series_op', 'ck': ck, 'ca': ca, 'lb': lb, 'crel': crel, 'da': da, 'db': db, 'op': rng.choice(ops), 'via_t': via_t,
                    'other_form': rng.choice(['series', 'series', 'array']),
                    'cells_a': [[rng.choice(POOLS[da]) for _ in ca] for _ in range(nr)], 'vb': _vals(db, len(lb), rng), 'lay_seed': rng.randrange(1 << 30)}
+        elif r < 0.965:
+            # matrix product between labelled operands: the contracted axis is paired by label as for every other operator
+            kind = rng.choice(['str', 'int', 'negint'])
+            k = rng.randint(1, 4)
+            labs = L.flat_labels(kind, k, rng)
+            k = len(labs)
+            perm = list(labs)
+            rel = 'identical'
+            if rng.random() < 0.75 and k > 1:
+                rng.shuffle(perm)
+                rel = 'permuted' if perm != labs else 'identical'
+            form = rng.choice(['SS', 'FS', 'SF', 'FF'])
+            nl, nr_ = rng.randint(1, 3), rng.randint(1, 3)
+            dt = rng.choice(['int64', 'float64'])
+            pool = [1, 2, 3, -4, 7, 5, -2, 0] if dt == 'int64' else [1.0, 0.5, 2.5, -3.75, 10.0, 4.0]
+            yield {'t': 'matmul', 'kind': kind, 'la': labs, 'lb': perm, 'rel': rel, 'form': form, 'dt': dt,
+                   'left': [[rng.choice(pool) for _ in range(k)] for _ in range(nl)], 'right': [[rng.choice(pool) for _ in range(nr_)] for _ in range(k)],
+                   'lay_seed': rng.randrange(1 << 30)}
         else:
             kind = rng.choice(['str', 'int', 'IndexDate', 'auto'])
             a, _, _ = _relation_labels(kind, rng)
@@ -282,7 +300,55 @@ def check(case, ctx):
     t = case['t']
     ctx.tally('case_type', t)
     return {'setop': _check_setop, 'series_op': _check_series_op, 'frame_op': _check_frame_op,
-            'frame_series_op': _check_frame_series, 'scalar_op': _check_scalar}[t](case, ctx)
+            'frame_series_op': _check_frame_series, 'scalar_op': _check_scalar, 'matmul': _check_matmul}[t](case, ctx)
+
+
+def _check_matmul(case, ctx):
+    import static_frame as sf
+    kind, la, lb, form, dt = case['kind'], case['la'], case['lb'], case['form'], case['dt']
+    left, right = case['left'], case['right']  # left: rows x k (columns la); right: k x cols (rows lb)
+    klass = {'t': 'matmul', 'form': form, 'rel': case['rel'], 'kind': kind, 'dt': dt}
+    ctx.evaluation(repr(case), case['rel'] == 'permuted')
+    ctx.tally('matmul_form', form + ':' + case['rel'])
+    rows_l = ['r%d' % i for i in range(len(left))]
+    cols_r = ['c%d' % j for j in range(len(right[0]))]
+    if form[0] == 'S':
+        a = sf.Series(V.to_array(left[0], dt), index=_index(kind, la))
+        left = left[:1]
+    else:
+        a = sf.Frame(np.array(left, dtype=dt).reshape(len(left), len(la)), index=rows_l, columns=_index(kind, la))
+    if form[1] == 'S':
+        b = sf.Series(V.to_array([r[0] for r in right], dt), index=_index(kind, lb))
+        right = [r[:1] for r in right]
+    else:
+        b = sf.Frame(np.array(right, dtype=dt).reshape(len(lb), len(right[0])), index=_index(kind, lb), columns=cols_r)
+    try:
+        out = a @ b
+    except Exception as e:
+        ctx.violation('operator_raised', detail={'op': 'matmul', 'exception': type(e).__name__, 'message': str(e)[:200]}, klass=dict(klass, exception=type(e).__name__))
+        return
+    pos_b = {cs(l): i for i, l in enumerate(lb)}
+    exp = [[sum(left[i][p] * right[pos_b[cs(l)]][j] for p, l in enumerate(la)) for j in range(len(right[0]))] for i in range(len(left))]
+    if form == 'SS':
+        got, want = [[out]], exp
+        labels_ok = not isinstance(out, (sf.Series, sf.Frame))
+    elif form == 'FS':
+        labels_ok = isinstance(out, sf.Series) and list(out.index) == rows_l
+        got = [[v] for v in out.values.tolist()] if labels_ok else None
+        want = exp
+    elif form == 'SF':
+        labels_ok = isinstance(out, sf.Series) and list(out.index) == cols_r[:len(right[0])]
+        got = [out.values.tolist()] if labels_ok else None
+        want = exp
+    else:
+        labels_ok = isinstance(out, sf.Frame) and list(out.index) == rows_l and list(out.columns) == cols_r
+        got = out.values.tolist() if labels_ok else None
+        want = exp
+    if not labels_ok:
+        ctx.violation('operator_labels_not_union', detail={'op': 'matmul', 'form': form, 'got': repr(out)[:300]}, klass=klass)
+        return
+    if not all(abs(float(g) - float(w)) <= 1e-9 * max(1.0, abs(float(w))) for gr, wr in zip(got, want) for g, w in zip(gr, wr)) or len(got) != len(want):
+        ctx.violation('operator_cell', detail={'op': 'matmul', 'form': form, 'left_labels': repr(la), 'right_labels': repr(lb), 'expected': want, 'got': got}, klass=klass)
 
 
 def _members(got, want):
